@@ -31,6 +31,7 @@ type genCfg struct {
 	bigKV      float64 // boundary-length key/value probes (C19)
 	maxValue   bool    // ... including a value of 2^28-1 bytes (thorough tier)
 	partial    float64 // probability of a case shaped for partial (same-file) compactions
+	longHist   float64 // probability of a long uncompacted history (footer larger than a page)
 	idle       float64 // probability that the idle merger is enabled
 	tinyDirty  float64
 	finalClose bool
@@ -102,6 +103,7 @@ func propCfg(prop string) genCfg {
 		base.drainW = 8
 		base.bigVals = 0.4
 		base.partial = 0.15
+		base.longHist = 0.03
 	case "C07":
 		base.backings = []string{"store", "store", "store", "direct"}
 		base.flags = []string{"storeEach", "compactShape", "verifyEach", "dirCheck", "finalReopen"}
@@ -114,6 +116,7 @@ func propCfg(prop string) genCfg {
 		base.bigVals = 0.6
 		base.merges = 0.3
 		base.partial = 0.3
+		base.longHist = 0.02
 	case "C08":
 		base.flags = []string{"verifyEach", "storeEach", "finalVerify", "finalReopen"}
 		base.merges = 1
@@ -506,6 +509,18 @@ func genSingle(c *Case, r *simrt.Rand, cfg genCfg) {
 		}
 	}
 	n := 4 + r.Intn(cfg.maxOps)
+	longHist := !partial && cfg.longHist > 0 && store && r.Chance(cfg.longHist)
+	if longHist {
+		// 32-44 small batches, each persisted in a round of its own, never
+		// compacted: the footer outgrows a page
+		c.Opts.Concern = 0
+		c.Opts.MergerIdleRunTimeoutMS = 0
+		c.MaxSteps *= 3
+		for i, nb := 0, 32+r.Intn(13); i < nb; i++ {
+			c.Prog = append(c.Prog, Op{Kind: "batch", B: g.batch()}, Op{Kind: "drain"})
+		}
+		n = 2 + r.Intn(6)
+	}
 	type w struct {
 		kind string
 		w    int
